@@ -37,6 +37,10 @@ def obligations(tier):
                       "default open: all return the uncached group; the repair leaves a complete index; the last open does not touch the image",
                       c07.FUNCS, bounds=f"forall local, adjacent in {{absent, complete, torn}}, 0<=k<len; lines={inst[0]}, rpc in {inst[1]}",
                       harness="harness/h_cache.py", func="default_open_after_crash_ok", params=c07.params(*inst), timeout=to))
+    obs.append(Ob("C09.opts", "X", "the create_cache / use_cache of this call reach every image reader unchanged whatever lies in the product directory (also an "
+                  "<image>.index next to every image): a requested repair is never silently switched off at the product level",
+                  ["ceos_alos2.xarray:open_alos2", "ceos_alos2.io:open"], bounds="forall use_cache, create_cache, rpc (int), option keys present/absent, adjacent index files present or "
+                  "not, one listed image absent or none; 1..8 images", harness="harness/h_tree.py", func="opts_ok", timeout=to))
     obs.append(Ob("C09.e2e", "E", "witness replay through open_alos2: every (local, adjacent) state in {absent, complete, torn}^2 with cuts at 0, 1, 1/2, len-1 "
                   "characters, default options: no exception, tree == uncached tree; then create_cache=True repairs",
                   ["ceos_alos2.xarray:open_alos2", "ceos_alos2.sar_image.caching:decode"], bounds="concrete replays (not the deciding step)",
